@@ -58,7 +58,8 @@ class C11(Profile):
             'early_parse': rng.random() < 0.3,
         }
         n_ids = rng.randrange(2, 13)
-        pool = SW.gen_pool(rng, index, n_ids, rng.choice([1, 2, 3, 5]), KINDS, digits_mixed=cfg['spelling_knob'])
+        pool = SW.gen_pool(rng, index, n_ids, rng.choice([1, 2, 3, 5]), KINDS, digits_mixed=cfg['spelling_knob'],
+                           upper_ids=rng.choice([0, 0, 0.3, 1.0]))
         kinds = U.swarm_weights(rng, OPS, keep=0.8, must=('add',))
         kinds = [(k, w * (4 if k == 'add' else 1) * (0.3 if k in ('save_load', 'restart', 'load_into', 'rebuild_memory', 'load_single') else 1)) for k, w in kinds]
         ops = []
